@@ -85,7 +85,13 @@ func genStmt(rt *rapid.T, token string, idem bool) stmtSpec {
 		}
 		s := cqlgen.Gen(rt, o)
 		if idem == (len(s.Planted) == 0) && strings.Contains(s.Text(), token) {
-			return stmtSpec{Text: s.Text(), Idem: idem, Planted: s.Planted}
+			text := s.Text()
+			if rapid.IntRange(0, 2).Draw(rt, "respell") == 0 {
+				// the same statement in a generated spelling: letter case, white-space runs, comments, bare CRs (the
+				// backend executes what the grammar says, whatever the proxy's lexer makes of the spelling)
+				text = cqlgen.Respell(rt, s)
+			}
+			return stmtSpec{Text: text, Idem: idem, Planted: s.Planted}
 		}
 		if i > 30 { // extremely unlikely; fall back to fixed texts
 			if idem {
